@@ -92,146 +92,8 @@ class SilentUnit(_Unit):
 UNITS.append(SilentUnit())
 
 
-# ------------------------------------------------------------------------------------------------ connection identity: what the publisher tells its consumers apart by
-# The sender units take it as given that different connections reach the publisher under different table keys (`client_id + uid`): a `?` attachment and a
-# synchronized attachment of the SAME receiver to the SAME publisher are two entries, so the `ephemeral` flag of one never overwrites the other's.  That is a fact
-# the consumer side establishes; it is discharged here on the real ZMQReceiver.__init__ / Sender.__init__ / Sender.send_push.
-from .assemblyunit import SockModel as _ASock, ReModel as _ReModel, ReMatchModel as _ReMatchModel
-from .imgmodel import zbv
-from .zmqmodel import JsonBytesModel as _JsonBytes
-
-
-class _IdSock(_ASock):
-    @staticmethod
-    def m_send_multipart(ex, o, msg, flags=0):
-        o.f['log'].append((o.f['_n'], list(msg)))
-
-
-class _IdCtx:
-    @staticmethod
-    def m_socket(ex, o, kind):
-        o.f['n'] += 1
-        return Obj('idsock', kind=kind, subs=[], log=o.f['log'], _n=o.f['n'])
-
-
-class _IdCtxCls:
-    m_get = staticmethod(lambda ex, o: o.f['ctx'])
-
-
-class _IdZmq:
-    @staticmethod
-    def getattr(ex, o, name):
-        return ClsTok('Again') if name == 'Again' else name if name != 'Poller' else NOTHANDLED
-
-    m_Poller = staticmethod(lambda ex, o: Obj('idpoller'))
-
-
-class _IdPoller:
-    m_register = staticmethod(lambda ex, o, *a: None)
-
-
-def replay_identity(failure):
-    """native: build the REAL ZMQReceiver (fake sockets) with the failing source list, let every source send a request, compare the ids the publishers would key by"""
-    import logging
-    logging.disable(logging.CRITICAL)
-    from replay_drivers import zmq_history
-    import json
-    Z = zmq_history.load()
-    info = failure.get('replay_info') or {}
-    lists = [info['addrs']] if info.get('addrs') else []
-    lists += [['tcp://h:5550', 'tcp://h:5550?'], ['tcp://h:5550?', 'tcp://h:5550'], ['ipc://p', 'ipc://p?', 'tcp://h:5550']]
-    for addrs in lists:
-        r = Z.ZMQReceiver([a if i % 2 else (a, None) for i, a in enumerate(addrs)], info.get('client_id') or 'c')
-        keys = []
-        for s in r.senders.values():
-            if s.push is not None:
-                s.send_push({'cid': r.client_id, 'mid': 0})
-                env = json.loads(s.push.sent[-1][0].decode())
-                keys.append(env['cid'] + env.get('uid', ''))
-        if len(set(keys)) != len(keys):
-            return {'confirmed': True, 'detail': f'ZMQReceiver({addrs}): its {len(keys)} requesting connections reach their publishers under the table keys {keys} - two attachments of this '
-                                                   'receiver collapse into one client entry (the ephemeral flag of the later request overwrites the earlier one)', 'input': {'addrs': addrs}}
-    return {'confirmed': False, 'detail': f'keys were pairwise different natively for {lists}'}
-
-
-class ConnIdentityUnit(_Unit):
-    """real ZMQReceiver.__init__ (+ Sender.__init__, new_recv) then the real Sender.send_push on every source: the requests of different connections of one receiver
-    carry pairwise different `cid + uid` keys - also when two of them go to the same address (synchronized + '?' attachment of one publisher)"""
-    name = 'ZMQReceiver.__init__ / Sender.__init__ / Sender.send_push (connection identity)'
-    targets = (f'{ZMQ}::ZMQReceiver.__init__', f'{ZMQ}::ZMQReceiver.Sender.__init__', f'{ZMQ}::ZMQReceiver.Sender.send_push', f'{ZMQ}::ZMQReceiver.new_recv', f'{ZMQ}::ZMQReceiver.Sender.new_recv')
-    required_covers = ('receiver built', 'same address twice')
-    mutants = (('connection id taken from the client id', f'{ZMQ}::ZMQReceiver.Sender.__init__', 'self.unique_id   = rndstr(12, 64)', 'self.unique_id   = client_id', 'C05.identity'),)
-
-    def shapes(self, tier):
-        import itertools
-        out = []
-        for n in (1, 2, 3):
-            for ephs in itertools.product((0, 1, 2), repeat=n):
-                for same in ((False, True) if n > 1 else (False,)):
-                    for cid in (('c', None) if (tier == 'thorough' or ephs in ((0, 1), (1, 0), (0,))) else ('c',)):
-                        out.append((ephs, same, cid))
-        out.append(((0, 1), 'ipc', 'c'))
-        return out
-
-    def run(self, shape, dec):
-        ephs, same, cid = shape
-        ex = new_exec(dec, ZMQ)
-        ex.modules[ZMQ] = zmq_consts()
-        register_class(ex, ZMQ, 'ZMQReceiver')
-        register_class(ex, ZMQ, 'ZMQReceiver.Sender')
-        ex.models.update(jsonbytes=_JsonBytes, idsock=_IdSock, idctx=_IdCtx, idctxcls=_IdCtxCls, idzmq=_IdZmq, idpoller=_IdPoller, re=_ReModel, rematch=_ReMatchModel)
-        pushlog, rnd = [], []
-
-        def rndstr(ex_, n, base=64):
-            v = _z3.String(f'rnd{len(rnd)}')
-            ex_.assume(_z3.Length(v) == n)
-            for o in rnd:
-                ex_.assume(v != o)          # TRUSTED: rndstr(n, 64) returns a string different from every string it returned before (random; collision probability 64^-n per pair)
-            rnd.append(v)
-            return v
-        g = ex.modules[ZMQ]
-        g.update(zmq=Obj('idzmq'), TCP_RE_ADDR=Obj('re'), rndstr=Native(rndstr, 'rndstr'), json_dumps=Native(_jd, 'json_dumps'),
-                 ZMQContext=Obj('idctxcls', ctx=Obj('idctx', n=0, log=pushlog)))
-        base = (lambda k: 'ipc://pipe') if same == 'ipc' else (lambda k: 'tcp://host:5550') if same else (lambda k: f'tcp://host{k}:{5550 + 2 * k}')
-        addrs = [base(k) + '?' * e for k, e in enumerate(ephs)]
-        spec = [a if k % 2 else (a, None) for k, a in enumerate(addrs)]      # both documented forms of a list entry
-        ex.replay_info = dict(addrs=addrs, client_id=cid)
-        try:
-            me = ex.construct('ZMQReceiver', [spec, cid], {})
-        except ExcSig as e:
-            ex.outcome = f'raise {e.cls}'
-            ex.oblige(f'C05.identity: the receiver constructor raises {e.cls} ({e.origin}) for a well-formed source list', False)
-            return ex
-        ex.cover('receiver built')
-        if same:
-            ex.cover('same address twice')
-        snds = list(me.f['senders'].values())
-        ex.oblige('C05.identity: one connection record per listed source', len(snds) == len(ephs))
-        my_cid = me.f['client_id']
-        for s in snds:
-            try:
-                ex.call_closure(closure(ZMQ, 'ZMQReceiver.Sender.send_push'), [s, {'cid': my_cid, 'mid': 0}], {})
-            except ExcSig as e:
-                ex.oblige(f'C05.identity: send_push raises {e.cls} ({e.origin})', False)
-                return ex
-        ex.outcome = 'return'
-        keys = []
-        for n_, msg in pushlog:
-            body = msg[0].f['of'] if isinstance(msg[0], Obj) and msg[0].cls == 'jsonbytes' else {}
-            ex.oblige('C05.identity: every request names its client id and a connection id', 'cid' in body and 'uid' in body)
-            if 'cid' in body and 'uid' in body:
-                keys.append(ex.binop(_ast.Add(), body['cid'], body['uid']))
-        ex.oblige('C05.identity: one request per connection that has a request socket', len(keys) == sum(1 for e in ephs if e < 2))
-        import itertools
-        for (i, a), (j, b) in itertools.combinations(enumerate(keys), 2):
-            ex.oblige('C05.identity: two connections of one receiver never reach a publisher under the same table key (client id + connection id), so a `?` attachment '
-                      'never overwrites the record of a synchronized one', _z3.Not(zbv(ex.eq(a, b))))
-        return ex
-
-    def replay(self, failure):
-        return replay_identity(failure)
-
-
+# connection identity (what the publisher tells its consumers apart by): discharged on the real constructor, contracts/recvinit.py
+from .recvinit import ConnIdentityUnit
 UNITS.append(ConnIdentityUnit())
 
 
